@@ -430,7 +430,7 @@ def _filename_case(draw, tier):
                 # right-aligned in a field whose width is another parameter
                 # ('{name!s:>{fw}}': nested replacement field of str.format)
                 spec=draw(st.sampled_from([None, None, "conv_s",
-                                           "nested_width"])))
+                                           "nested_width", "int_d"])))
 
 
 PARTS = [
@@ -1219,6 +1219,9 @@ def _check_filename(case, ctx):
             return "{%s}" % n
         if spec == "conv_s":
             return "{%s!s}" % n
+        if spec == "int_d":
+            # a format spec that only fits integers
+            return "{%s:d}" % n
         return "{%s!s:>{fw}}" % n
     tpl = "res" + "".join(case["sep"] + field(n) for n in names) + \
         case["ext"]
@@ -1239,6 +1242,16 @@ def _check_filename(case, ctx):
     ctx.label("fn:" + _tname(va), "fn:differ" if differ else "fn:equal",
               "fn:n=%d" % len(case["scalars"]))
     ctx.nontrivial(len(names) >= 2)
+    if spec == "int_d":
+        # values that do not fit the spec are refused (ValueError / TypeError
+        # of str.format), never turned silently into some other name
+        try:
+            na = a.get_filename_with_replaced_params(tpl)
+            na2 = a2.get_filename_with_replaced_params(tpl)
+            nb = b.get_filename_with_replaced_params(tpl)
+        except (ValueError, TypeError):
+            ctx.label("fn:spec_does_not_fit_refused")
+            return
     na = a.get_filename_with_replaced_params(tpl)
     na2 = a2.get_filename_with_replaced_params(tpl)
     nb = b.get_filename_with_replaced_params(tpl)
